@@ -17,7 +17,7 @@ class C04(Prop):
             "sequential, reverse); key-log lines of all connections shuffled; oracle: per-flow packet sequences (bytes and "
             "timestamps) of the mixed export == those of the N solo exports (same packets, others removed); non-trivial = "
             ">= 2 connections actually interleave at the tap; distinct = distinct interleaving signatures")
-    reach = ["same_hosts_diff_client_port", "same_client_port_diff_server", "same_server_diff_clients", "v4_v6_mixed",
+    reach = ["same_hosts_diff_client_port", "same_client_port_diff_server", "same_server_diff_clients", "crossed_pair_same_ports", "v4_v6_mixed",
              "tls_quic_mixed", "quic_zero_len_cid", "noise", "n_ge_4", "policy_bursty", "policy_sequential"]
 
     def plan(self, tier):
@@ -41,9 +41,13 @@ class C04(Prop):
             v6 = None
             if conns and E.chance(65):
                 o = E.choice(conns)
-                mode = E.choice(["hosts", "cport", "server"])
+                mode = E.choice(["hosts", "cport", "server", "crossed"])
                 v6 = o["v6"]
-                if mode == "hosts":
+                if mode == "crossed":
+                    # the two hosts connect to each other's server port from the same ephemeral port number
+                    kw = {"client_ip": o["s"]["ip"], "server_ip": o["c"]["ip"], "client_port": o["c"]["port"],
+                          "server_port": o["s"]["port"]}
+                elif mode == "hosts":
                     kw = {"client_ip": o["c"]["ip"], "server_ip": o["s"]["ip"], "server_port": o["s"]["port"]}
                 elif mode == "cport":
                     kw = {"client_ip": o["c"]["ip"], "client_port": o["c"]["port"]}
@@ -152,6 +156,8 @@ class C04(Prop):
                 out.count("reach:same_client_port_diff_server")
             elif c.get("collide") == "server":
                 out.count("reach:same_server_diff_clients")
+            elif c.get("collide") == "crossed":
+                out.count("reach:crossed_pair_same_ports")
             if c["proto"] == "quic" and (c.get("q", {}).get("scid_c_len") == 0 or c.get("q", {}).get("scid_s_len") == 0):
                 out.count("reach:quic_zero_len_cid")
         if len(set(c["v6"] for c in conns)) > 1:
